@@ -334,7 +334,22 @@ def correspondence(pid, tier, seed, ev, violations, replay_case=None):
             if nmis <= 3:
                 fi = frames([int(x) for x in exps[i].split()])
                 fm = frames([int(x) for x in mods[i].split()])
-                opi = next((k for k in range(max(len(fi), len(fm))) if k >= len(fi) or k >= len(fm) or fi[k] != fm[k]), None)
+                diff_ops = [k for k in range(max(len(fi), len(fm))) if k >= len(fi) or k >= len(fm) or fi[k] != fm[k]]
+                # ops that look at internals (byte layout 21, index structures 22, the builder's in-memory
+                # state 23) tie the model to the code more tightly than the property demands: for every
+                # property except the format property C10 a difference there alone is a broken
+                # correspondence (a harmless change of internals can cause it), not a failing input
+                internal = {21, 22, 23} if pid != "C10" else set()
+                codes = [c["op"] for c in cases[i]["ops"]]
+                api_diffs = [k for k in diff_ops if k >= len(codes) or codes[k] not in internal]
+                opi = (api_diffs or diff_ops or [None])[0]
+                if not api_diffs and diff_ops:
+                    violations.append({"kind": "internal-correspondence", "failing_input": False, "case_index": i, "case": cases[i],
+                                       "first_differing_op": opi,
+                                       "implementation_answer": fi[opi] if opi < len(fi) else None,
+                                       "model_answer": fm[opi] if opi < len(fm) else None,
+                                       "broken": "the correspondence between the model and the code's internals (op code %d: byte layout / index structures / builder state) no longer holds on this scenario, while every API answer of the scenario still agrees with the specification" % codes[opi]})
+                    continue
                 violations.append({"kind": "transcript-mismatch", "failing_input": True, "case_index": i,
                                    "case": cases[i], "first_differing_op": opi,
                                    "implementation_answer": fi[opi] if opi is not None and opi < len(fi) else None,
